@@ -1288,9 +1288,10 @@ def quaternion_from_euler(ai, aj, ak, axes="sxyz"):
     if parity:
         aj = -aj
 
-    ai /= 2.0
-    aj /= 2.0
-    ak /= 2.0
+    # not `ai /= 2.0`: that writes into the caller's data for array arguments
+    ai = ai / 2.0
+    aj = aj / 2.0
+    ak = ak / 2.0
     ci = np.cos(ai)
     si = np.sin(ai)
     cj = np.cos(aj)
